@@ -8,30 +8,174 @@ from leanfmt import cps, lean_list, lean_str
 
 ID = "C20"
 LEAN_MODULES = ["EzdxfVerif.Props.C20"]
-DRIVER_DEPS = ["EzdxfVerif.Model.Text", "EzdxfVerif.Gen.TextTables", "Drivers.Proto"]
+DRIVER_DEPS = ["EzdxfVerif.Model.Text", "EzdxfVerif.Model.TextCtx", "EzdxfVerif.Gen.TextTables", "Drivers.Proto"]
 RULE = (
-    "correspondence: every string over a 12-symbol MTEXT control alphabet up to length 4 (quick) / 5 (thorough), "
-    "command templates (\\\\X + all argument strings up to length 3 over a numeric alphabet), seeded random strings "
-    "to length 600 and digit runs around the 4300-digit int() limit; ops caret/split/fast/ptext/tokens/plain on the "
-    "Lean model vs. the real functions; non-trivial = contains at least one control symbol; distinct by hash of "
-    "(op, string). oracle: same strings on the real code (no exception, split/join identity, chunk bounds, "
-    "fast==slow on the sub-grammar, MTextEditor round trip)."
+    "correspondence X1: every string over a 12-symbol MTEXT control alphabet up to length 4 (quick) / 5 (thorough), "
+    "command templates (\\X + all argument strings up to length 2/3 over a numeric alphabet), templates incl. the "
+    "counterexamples of the differ_* theorems, seeded random strings to length 600 and digit runs around the 4300-digit "
+    "int() limit; ops caret/split (sizes 0,1,2,3,7,250)/fast/ptext/tokens/plain/escape/fix1/safe on the Lean model vs. the "
+    "real functions; X3: MTextEditor call sequences (21 methods/constants, in-range random arguments) -> written text, "
+    "expected words for both decoders, expected token stream, wf; X5: ParagraphProperties.tostring() and ctx.paragraph after "
+    "parsing; X2: the property's sub-grammar is inside agreeClass; X4: differ_* replays; X6: paragraph list (split=True); X7: the "
+    "MTextContext of every token (generated contents and every editor output). non-trivial = contains at least one control symbol; "
+    "distinct by hash of (op, string). oracle: same strings on the real code (no exception, split/join identity, chunk "
+    "bounds, purity, fast==slow on the sub-grammar AND on every generated string the model's recogniser agreeClass "
+    "accepts (joined and list form), exact MTextEditor round trip for both decoders incl. split=True and bullet lists, size "
+    "estimators / MTextExplode / wrapping / scaling without exception for several MTEXT attribute sets, MTEXT content through a real DXF file)."
 )
 TRUSTED_BASE = [
     "CPython str/re semantics for the modelled regexes (hand model of RE_FLOAT/RE_FLOAT_X/\\d+ tied to the pattern text by Gen/TextTables)",
-    "MTextContext values (fonts, heights, colours) are not modelled, only whether computing them can raise",
+    "MTextContext (Model/TextCtx.lean): float attributes are symbolic (abs(float(f)), previous * abs(float(f))); the harness evaluates them with "
+    "CPython floats in the same order (stream X7); CPython float()/int() on the matched texts is trusted",
     "non-ASCII decimal digits (matched by \\d) are outside the model",
+    "hand translation of tools/text.py into Model/Text.lean (validated by X1-X5, not proved); command dispatch, token commands "
+    "`in` character sets and the context attributes assigned per command (frame conditions) are extracted from the AST each run "
+    "(Gen/TextTables dispatch/tokenCmds/inSets/assigns) and proved equal to / respected by the model",
 ]
 ASSUMPTIONS = [
     "sys.get_int_max_str_digits() == 4300",
+    "float-text assumption: str(round(x, 3)) and f'{x:g}' of a finite float match RE_FLOAT completely (EdOp.wf / isFloatText; "
+    "checked for every generated value by X3/X5); values are compared as texts, float(text) is CPython's",
     "fonts/text size estimators are exercised by the oracle only (not modelled)",
 ]
-OPEN = ["fast_eq_slow is proved for the sub-grammar SubDoc (plain text, \\P, escaped chars, groups, ;-terminated commands)"]
+OPEN = [
+    "agreeClass is sound (theorem fast_eq_slow) and tight on the generated strings (29 of 38k generated strings outside the class "
+    "still agree), fast_eq_slow_iff reduces agreement to the two string functions slowLoop / fastLoop, but no syntactic "
+    "completeness theorem (agree => in class) is proved",
+    "text size estimators (mtext_size, estimate_mtext_extents, text_size), the layout engine, MTextExplode, text_wrap, "
+    "scale_mtext_inline_commands: totality is searched by the oracle (O1b, O1c; five defects found and fixed this session), not proved",
+    "MText.plain_text / all_columns_plain_text wrappers and linked columns: oracle only",
+    "observations outside the property (not fixed): the parser flag _continue_stroke is not restored by pop_ctx (a stroke switched on inside a "
+    "group leaves continue_stroke=True on later contexts; modelled as is); scale_mtext_inline_commands splits at the text \\H also behind an "
+    "escaped backslash (scale('\\\\H2;a', 2) changes the visible text) and accepts '.5' which the parser does not",
+]
 
 ALPHA = ["\\", "{", "}", ";", "^", "%", ",", "0", "a", " ", "S", "H"]
 ARGALPHA = ["0", "1", ".", ":", "e", "x", ";", "+", "-", "\\", "a", ",", "^", "/", "#", "*", "c", "r", "t", "q", "i", "l"]
 CMDS = "LlOoKkACcHWQTpfFSPNX~;\\{}%z"
 RICH = list("\\\\\\{}{};;^^%%|,,01239.:eExX+-*/# \t\naépqilrtcCHSAQWTFfPNLOK~d")
+
+
+def extract_dispatch(src: str):
+    """AST of tools/text.py -> (parse_properties dispatch [(letter, kind, handler)], next_token commands
+    [(letter, token/handler)], character sets used with `in` per function).  `kind` is derived from the body
+    of the handler: which extractor it calls (`extract_float_expression(relative=..)`, `extract_int_expression`,
+    `extract_expression` (+ whether it evaluates `float()`), `scanner.get`) and whether it consumes the optional
+    terminator."""
+    import ast
+
+    tree = ast.parse(src)
+
+    def find_func(node, name):
+        for n in ast.walk(node):
+            if isinstance(n, ast.FunctionDef) and n.name == name:
+                return n
+        raise ValueError(f"function {name} not found")
+
+    cls = [n for n in tree.body if isinstance(n, ast.ClassDef) and n.name == "MTextParser"][0]
+    methods = {n.name: n for n in cls.body if isinstance(n, ast.FunctionDef)}
+
+    def self_calls(fn):
+        out = []
+        for n in ast.walk(fn):
+            if (isinstance(n, ast.Call) and isinstance(n.func, ast.Attribute) and isinstance(n.func.value, ast.Name)
+                    and n.func.value.id == "self"):
+                out.append((n.func.attr, {k.arg: getattr(k.value, "value", None) for k in n.keywords}))
+        return out
+
+    def kind_of(method):
+        fn = methods[method]
+        calls = self_calls(fn)
+        names = [c[0] for c in calls]
+        term = "+term" if "consume_optional_terminator" in names else ""
+        has_float = any(isinstance(n, ast.Call) and isinstance(n.func, ast.Name) and n.func.id == "float" for n in ast.walk(fn))
+        if "parse_float_value_or_factor" in names:
+            inner = self_calls(methods["parse_float_value_or_factor"])
+            if ("extract_float_expression", {"relative": True}) not in inner:
+                raise ValueError("parse_float_value_or_factor no longer uses extract_float_expression(relative=True)")
+            return "float_x" + term
+        for c, kw in calls:
+            if c == "extract_float_expression":
+                return ("float_x" if kw.get("relative") else "float") + term
+            if c == "extract_int_expression":
+                return "int" + term
+            if c == "extract_expression":
+                return ("expr-floats" if has_float else "expr") + term
+        for n in ast.walk(fn):
+            if (isinstance(n, ast.Call) and isinstance(n.func, ast.Attribute) and n.func.attr == "get"
+                    and isinstance(n.func.value, ast.Attribute) and n.func.value.attr == "scanner"):
+                return "get" + term
+        return "unknown:" + method
+
+    node = [n for n in methods["parse_properties"].body if isinstance(n, ast.If)][0]
+    dispatch = []
+    while True:
+        comps = [node.test] if isinstance(node.test, ast.Compare) else node.test.values
+        letters = []
+        for c in comps:
+            if not (isinstance(c, ast.Compare) and isinstance(c.left, ast.Name) and c.left.id == "cmd" and isinstance(c.ops[0], ast.Eq)):
+                raise ValueError("parse_properties: unexpected test " + ast.unparse(c))
+            letters.append(c.comparators[0].value)
+        calls = [c for st in node.body for c in self_calls(st)]
+        kind = "stroke" if not calls else kind_of(calls[0][0])
+        dispatch += [(l, kind, calls[0][0] if calls else "") for l in letters]
+        if len(node.orelse) == 1 and isinstance(node.orelse[0], ast.If):
+            node = node.orelse[0]
+        elif len(node.orelse) == 1 and isinstance(node.orelse[0], ast.Raise):
+            break
+        else:
+            raise ValueError("parse_properties: the if-chain does not end in `raise UnknownCommand`")
+    nt = find_func(methods["parse"], "next_token")
+    tokens = []
+    for n in ast.walk(nt):
+        if (isinstance(n, ast.If) and isinstance(n.test, ast.Compare) and isinstance(n.test.left, ast.Name)
+                and n.test.left.id == "cmd" and isinstance(n.test.ops[0], ast.Eq) and isinstance(n.body[0], ast.Return)):
+            v = n.body[0].value
+            tokens.append((n.test.comparators[0].value, v.elts[0].attr if isinstance(v, ast.Tuple) else v.func.attr))
+
+    def insets(fn):
+        out = []
+        for n in ast.walk(fn):
+            if isinstance(n, ast.Compare) and isinstance(n.ops[0], (ast.In, ast.NotIn)):
+                c = n.comparators[0]
+                out.append(c.value if isinstance(c, ast.Constant) else ast.unparse(c))
+        return out
+
+    def assigned(fn):
+        out = set()
+        for n in ast.walk(fn):
+            targets = n.targets if isinstance(n, ast.Assign) else ([n.target] if isinstance(n, (ast.AugAssign, ast.AnnAssign)) else [])
+            for tg in targets:
+                if isinstance(tg, ast.Attribute) and isinstance(tg.value, ast.Name) and tg.value.id in ("ctx", "new_ctx"):
+                    out.add(tg.attr)
+        return out
+
+    # frame conditions: which context attributes the branch of a command letter (incl. the handler it calls) assigns
+    node = [n for n in methods["parse_properties"].body if isinstance(n, ast.If)][0]
+    assigns = []
+    while True:
+        comps = [node.test] if isinstance(node.test, ast.Compare) else node.test.values
+        attrs = set()
+        for st in node.body:
+            attrs |= assigned(st)
+            for c in ast.walk(st):
+                if (isinstance(c, ast.Call) and isinstance(c.func, ast.Attribute) and isinstance(c.func.value, ast.Name)
+                        and c.func.value.id == "self" and c.func.attr in methods):
+                    attrs |= assigned(methods[c.func.attr])
+        assigns += [(c.comparators[0].value, sorted(attrs)) for c in comps]
+        if len(node.orelse) == 1 and isinstance(node.orelse[0], ast.If):
+            node = node.orelse[0]
+        else:
+            break
+    tail = [ast.unparse(s) for s in methods["parse_properties"].body if not isinstance(s, ast.If)]
+    if tail != ["new_ctx = self.ctx.copy()", "new_ctx.continue_stroke = self._continue_stroke", "self.ctx = new_ctx"]:
+        raise ValueError("parse_properties: statements around the if-chain changed: " + repr(tail))
+
+    sets = [(name, insets(fn)) for name, fn in (
+        ("next_token", nt), ("parse_stacking", methods["parse_stacking"]), ("parse_align", methods["parse_align"]),
+        ("fast_plain_mtext", find_func(tree, "fast_plain_mtext")), ("plain_text", find_func(tree, "plain_text")),
+        ("MTextEditor.stack", find_func(tree, "stack")))]
+    return dispatch, tokens, sets, assigns
 
 
 def regenerate(ctx):
@@ -58,8 +202,24 @@ def regenerate(ctx):
     if not (m1 and m2):
         raise ValueError("RE_FLOAT / RE_FLOAT_X definitions not found")
     assert T.RE_FLOAT.pattern == m1.group(1) and T.RE_FLOAT_X.pattern == m2.group(1)
+    dispatch, tokens, sets, assigns = extract_dispatch(src)
+    lean_pair = lambda a, b: f"(Char.ofNat {ord(a)}, {lean_str(b)})"
     text = f"""
 namespace EzdxfVerif.Gen.TextTables
+
+/-- `MTextParser.parse_properties`: (command letter, kind of its handler) in source order, from the AST;
+    kinds: stroke | get+term | int+term | float_x+term | float+term | expr-floats | expr -/
+def dispatch : List (Char × String) := {lean_list(lean_pair(l, k) for l, k, _ in dispatch)}
+
+/-- `next_token`: commands that become a token of their own (or the stacking parser), from the AST -/
+def tokenCmds : List (Char × String) := {lean_list(lean_pair(l, k) for l, k in tokens)}
+
+/-- `parse_properties`: the MTextContext attributes the branch of a command letter (with the handler it calls)
+    assigns, from the AST; `continue_stroke` is assigned behind the if-chain for every command -/
+def assigns : List (Char × List String) := {lean_list("(Char.ofNat " + str(ord(l)) + ", " + lean_list(lean_str(a) for a in attrs) + ")" for l, attrs in assigns)}
+
+/-- character sets used with `in` (function, sets in source order), from the AST -/
+def inSets : List (String × List String) := {lean_list("(" + lean_str(n) + ", " + lean_list(lean_str(x) for x in ss) + ")" for n, ss in sets)}
 
 /-- (c, SPECIAL_CHAR_ENCODING[c.lower()]) for every Unicode scalar c with c.lower() in the table -/
 def specialList : List (Nat × Nat) := {lean_list(f"({a}, {b})" for a, b in special)}
@@ -86,15 +246,17 @@ def _exc(e: BaseException) -> str:
     return "err " + type(e).__name__
 
 
-def impl_tokens(s: str) -> str:
+def impl_tokens(s: str, yield_props: bool = False) -> str:
     from ezdxf.tools.text import MTextParser, TokenType as TT
 
     names = {TT.SPACE: "SP", TT.NBSP: "NB", TT.TABULATOR: "TAB", TT.NEW_PARAGRAPH: "NP",
              TT.NEW_COLUMN: "NC", TT.WRAP_AT_DIMLINE: "WD"}
     try:
         out = []
-        for t in MTextParser(s):
-            if t.type == TT.WORD:
+        for t in MTextParser(s, yield_property_commands=yield_props):
+            if t.type == TT.PROPERTIES_CHANGED:
+                out.append("P:" + cps(t.data))
+            elif t.type == TT.WORD:
                 out.append("W:" + cps(t.data))
             elif t.type == TT.STACK:
                 u, l, d = t.data
@@ -126,10 +288,40 @@ def impl(op: str, s: str, size: int = 0) -> str:
         return cps(T.plain_text(s))
     if op == "tokens":
         return impl_tokens(s)
+    if op == "tokensY":
+        return impl_tokens(s, True)
     if op == "plain":
         return impl_plain(s)
+    if op == "export":
+        from ezdxf.entities.mtext import export_mtext_content
+        from ezdxf.lldxf.tags import Tags
+        from ezdxf.lldxf.types import DXFTag
+
+        class Collector:
+            def __init__(self):
+                self.tags = []
+
+            def write_tag2(self, code, value):
+                self.tags.append((code, value))
+
+        w = Collector()
+        export_mtext_content(s, w)
+        back = T.load_mtext_content(Tags(DXFTag(c, v) for c, v in w.tags))
+        return ";".join(f"{c}:{cps(v)}" for c, v in w.tags) + "|" + cps(back)
+    if op == "slow":
+        return cps(T.plain_mtext(s))
+    if op == "escape":
+        return cps(T.escape_dxf_line_endings(s))
+    if op == "fix1":
+        from ezdxf.lldxf import validator
+        return cps(validator.fix_one_line_text(s)) + "|" + ("1" if validator.is_valid_one_line_text(s) else "0")
+    if op == "safe":
+        return cps(T.safe_string(s, size))
     if op == "split":
-        return ";".join(cps(c) for c in T.split_mtext_string(s, size))
+        try:
+            return ";".join(cps(c) for c in T.split_mtext_string(s, size))
+        except ValueError as e:
+            return _exc(e)
     raise ValueError(op)
 
 
@@ -154,6 +346,12 @@ def strings(ctx):
             yield "tmpl", "x\\S" + body + tail
     for s in ["%%c", "%%C", "%%d%%p", "%%", "%", "%%%", "%%k%%o%%u%%K", "%%x", "a%%", "%%K", "^", "a^", "^^", "^I^J^M", "^ ", "\\~\\X\\N"]:
         yield "tmpl", s
+    for s, _, _ in DIFFER:
+        yield "tmpl", s
+    for s in ["\\fa*b;x", "\\fA<>/:?=`\";x", "\\Fa\\b;x", "\\;", "\\ptc;x", "\\ptr,c;x", "\\S;", "\\P\\S;", "a\\N\\S1/2;", "\\N\\S/", "\\Na b", "{\\H10x;A} b"]:
+        yield "tmpl", s
+    for s in ["\\W.8;", "\\S1\\/2;", "%%%c", "\\z", "\\:\\;", "\\zb", "a\\P", "\\P", "\\P\\P", "\n\\S", "\\S;\\P", "{\\P}", "^J"]:
+        yield "tmpl", s
     rng = ctx.rng("strings")
     for _ in range(ctx.n(3000, 60000)):
         n = rng.choice([1, 2, 3, 5, 8, 13, 21, 40, 80, 200, 600])
@@ -167,9 +365,62 @@ def strings(ctx):
 
 CONTROL = set("\\{};^%")
 
+# the counterexample theorems `differ_*` of Props/C20.lean, replayed on the real code: (content, plain_mtext, fast_plain_mtext)
+DIFFER = [
+    ("\\~", " ", "\\~"), ("a\\Nb", "a\nb", "a b"), ("^I", "    ", "\t"), ("a\\", "a ", "a"), ("\\H1a;", "a;", ""),
+    ("\\H1", "", "\\H1"), ("\\zb;", "\\zb;", ""), ("%%", "%%", ""),
+]
+
+
+_SMALL_SPLIT = r"""
+import sys, json, resource, signal
+resource.setrlimit(resource.RLIMIT_AS, (1 << 30, 1 << 30))
+from ezdxf.tools.text import split_mtext_string
+out = []
+hangs = 0
+for s, size in json.load(sys.stdin):
+    if hangs >= 3:
+        out.append("err Hang(skipped after 3 hangs)")
+        continue
+    signal.setitimer(signal.ITIMER_REAL, 0.5)
+    try:
+        r = ";".join(" ".join(str(ord(c)) for c in chunk) for chunk in split_mtext_string(s, size))
+    except ValueError:
+        r = "err ValueError"
+    except BaseException as e:  # MemoryError / alarm: the loop of the unfixed code never ends for size 1 and a caret
+        r = "err Hang(" + type(e).__name__ + ")"
+        hangs += 1
+    signal.setitimer(signal.ITIMER_REAL, 0)
+    out.append(r)
+json.dump(out, sys.stdout)
+"""
+
+
+def uncps_chunks(r: str):
+    return ["".join(chr(int(x)) for x in chunk.split()) for chunk in r.split(";")] if r else []
+
+
+def split_small_sizes(pairs):
+    """split_mtext_string(s, size) for size < 2 in a child process with an address space limit and an alarm:
+    before the fix the call never returned for size 1 and content with a caret (memory grows without bound)"""
+    import json, os, signal, subprocess, sys
+
+    def handler():
+        signal.signal(signal.SIGALRM, lambda *a: (_ for _ in ()).throw(TimeoutError()))
+
+    env = dict(os.environ)
+    repo = os.environ.get("VERIF_REPO", "/repo")
+    env["PYTHONPATH"] = os.path.join(repo, "src")
+    code = "import signal\nsignal.signal(signal.SIGALRM, lambda *a: (_ for _ in ()).throw(TimeoutError()))\n" + _SMALL_SPLIT
+    r = subprocess.run([sys.executable, "-c", code], input=json.dumps(pairs), capture_output=True, text=True, env=env, timeout=600)
+    if r.returncode != 0:
+        return ["err Child(" + str(r.returncode) + ")"] * len(pairs)
+    return json.loads(r.stdout)
+
 
 def correspond(ctx):
     cases = []
+    small = []
     seen = set()
     for kind, s in strings(ctx):
         if s in seen:
@@ -177,31 +428,61 @@ def correspond(ctx):
         seen.add(s)
         ctx.hist("X1 text tools", kind)
         nontriv = any(c in CONTROL for c in s)
-        ops = ["caret", "fast", "ptext", "tokens", "plain"]
+        ops = ["caret", "fast", "ptext", "tokens", "tokensY", "plain", "slow"]
         if kind in ("exh",) and len(s) > 4:
-            ops = ["tokens", "fast"]  # thorough length-5 layer: the two parsers only
+            ops = ["tokens", "fast", "slow"]  # thorough length-5 layer: the two parsers and the string-level spec only
         for op in ops:
             cases.append((f"{op}|{cps(s)}", impl(op, s), nontriv))
         if kind != "cmd":
+            lines = s.replace("^", "\r").replace(";", "\n")  # same strings with line ending characters
+            for op in ("escape", "fix1"):
+                cases.append((f"{op}|{cps(lines)}", impl(op, lines), "\n" in lines or "\r" in lines))
+            cases.append((f"safe|3|{cps(lines)}", impl("safe", lines, 3), True))
+            cases.append((f"export|{cps(lines)}", impl("export", lines), True))
             for size in (2, 3, 7):
                 cases.append((f"split|{size}|{cps(s)}", impl("split", s, size), "^" in s))
+            if len(s) <= 3:
+                small.append(s)
+    pairs = [(s, size) for s in small for size in (0, 1)]  # after the fix: ValueError
+    for (s, size), r in zip(pairs, split_small_sizes(pairs)):
+        cases.append((f"split|{size}|{cps(s)}", r, True))
+        if r.startswith("err Hang(") and "skipped" not in r:
+            ctx.fail(f"split/hang/{size}/{s!r}", f"split_mtext_string({s!r}, {size}) does not return (stopped after 0.5 s / 1 GB)",
+                     {"op": "splithang", "text": s, "size": size})
+        elif not r.startswith("err") and "".join(uncps_chunks(r)) != s:
+            ctx.fail(f"split/{size}/{s!r}", f"split_mtext_string({s!r}, {size}) -> chunks that do not join to the content",
+                     {"op": "split", "text": s, "size": size})
+    rng = ctx.rng("export")
+    for _ in range(ctx.n(200, 2000)):
+        n = rng.choice([0, 1, 249, 250, 251, 499, 500, 501, 752])
+        s = "".join(rng.choice("^^ab\n\r\\P") for _ in range(n))
+        cases.append((f"export|{cps(s)}", impl("export", s), True))
     rng = ctx.rng("split")
     for _ in range(ctx.n(300, 3000)):
         n = rng.choice([249, 250, 251, 499, 500, 501, 750, 1000])
         s = "".join(rng.choice("^^^ab") for _ in range(n))
         cases.append((f"split|250|{cps(s)}", impl("split", s, 250), True))
     ctx.correspond("X1 text tools", "C20", cases, build=["EzdxfVerif.Model.Text", "EzdxfVerif.Gen.TextTables", "Drivers.Proto"])
+    editor_correspond(ctx)
+    para_correspond(ctx)
+    context_correspond(ctx)
 
 
 # ------------------------------------------------------------------ oracle on the real code
 SUB_WORDS = ["a", "b0", "é", "x y", "1,2", ""]
 
 
+SUB_ATOMS = ["\\P", "\\\\", "\\{", "\\}", "{", "}", "\\C1;", "\\H2.5x;", "\\fArial|b0|i1;", "\\A1;", "\\Q15;",
+             "\\W0.8;", "\\T1.5;", "\\c255;", "\\pi1,l2;", "\\L", "\\l", "\\O", "\\o", "\\K", "\\k",
+             # session 3: stacking, special codes, caret sequences, commands with empty / signed / exponent arguments
+             "\\S1/2;", "\\Sa^ b;", "\\S1#4;", "\\Sxy;", "%%c", "%%D", "%%p", "50% ", "%%z", "^J", "^ ", "\\X",
+             "\\H;", "\\H-1.5e+2;", "\\Q-12.5;", "\\A;", "\\pxqc,t1,c2,r3;", "\\p;", "\\F;", "\\C;", "\\T2x;"] + SUB_WORDS
+
+
 def subgrammar_docs(ctx):
     """content made of plain text, \\P, escaped chars, groups and ;-terminated commands"""
     rng = ctx.rng("subdoc")
-    atoms = ["\\P", "\\\\", "\\{", "\\}", "{", "}", "\\C1;", "\\H2.5x;", "\\fArial|b0|i1;", "\\A1;", "\\Q15;",
-             "\\W0.8;", "\\T1.5;", "\\c255;", "\\pi1,l2;", "\\L", "\\l", "\\O", "\\o", "\\K", "\\k"] + SUB_WORDS
+    atoms = SUB_ATOMS
     for n in range(0, 3):
         for t in itertools.product(atoms, repeat=n):
             yield "".join(t)
@@ -213,11 +494,20 @@ def oracle(ctx):
     from ezdxf.tools import text as T
     import ezdxf
 
+    from ezdxf.tools import text_size as TS
+    from ezdxf.addons import MTextExplode
+
     doc = ezdxf.new()
     msp = doc.modelspace()
     mtext = msp.add_mtext("")
+    # size estimators: MTEXT with undefined width (estimated), narrow / wide columns, zero char height; TEXT / ATTRIB
+    sized = [msp.add_mtext("", dxfattribs={"width": w, "char_height": h}) for w, h in ((0.0, 2.5), (0.5, 2.5), (5, 1), (100, 0.2), (3, 0))]
+    one_line = msp.add_text("")
     n = 0
     every = ctx.n(37, 11)
+    every_size = ctx.n(5, 23)  # thorough: ~15k of the 330k strings (each costs 5 layouts + 2 explodes)
+    import inspect
+    accurate_estimate = "fast" in inspect.signature(T.estimate_mtext_extents).parameters  # added by fix a3627622f
     for kind, s in strings(ctx):
         n += 1
         ctx.count("O1 totality", s, any(c in CONTROL for c in s))
@@ -238,6 +528,46 @@ def oracle(ctx):
             except Exception as e:  # noqa
                 ctx.fail(f"total/estimators/{type(e).__name__}/{s[:40]!r}", f"MText tools on {s[:80]!r} raised {type(e).__name__}: {e}",
                          {"op": "estimate", "text": s})
+        if (n % every_size == 0 or kind in ("tmpl", "cmd")) and len(s) <= 300:
+            ctx.count("O1b size estimators", s, any(c in CONTROL for c in s))
+            for i, m in enumerate(sized):
+                try:
+                    m.text = s
+                    TS.mtext_size(m)
+                    T.estimate_mtext_extents(m)
+                    if accurate_estimate:
+                        T.estimate_mtext_extents(m, fast=False)
+                except Exception as e:  # noqa
+                    ctx.fail(f"total/mtext_size/{type(e).__name__}/{i}/{s[:40]!r}",
+                             f"mtext_size / estimate_mtext_extents of MTEXT(width={m.dxf.width}, char_height={m.dxf.char_height}) with content {s[:80]!r} raised {type(e).__name__}: {e}",
+                             {"op": "size", "text": s, "width": m.dxf.width, "char_height": m.dxf.char_height})
+            try:
+                one_line.dxf.text = s
+                TS.text_size(one_line)
+                one_line.plain_text()
+            except Exception as e:  # noqa
+                ctx.fail(f"total/text_size/{type(e).__name__}/{s[:40]!r}", f"text_size(TEXT {s[:80]!r}) raised {type(e).__name__}: {e}",
+                         {"op": "size1", "text": s})
+        if (n % every_size == 1 or kind == "tmpl") and len(s) <= 300:
+            # other tools built on the parser: MTextExplode add-on, inline command scaling, wrapping
+            ctx.count("O1c parser based tools", s, any(c in CONTROL for c in s))
+            for w in (0.0, 3.0):
+                try:
+                    m = msp.add_mtext(s, dxfattribs={"width": w})
+                    with MTextExplode(msp) as xpl:
+                        xpl.explode(m, destroy=True)
+                except Exception as e:  # noqa
+                    ctx.fail(f"total/MTextExplode/{type(e).__name__}/{s[:40]!r}", f"MTextExplode of MTEXT(width={w}) with content {s[:80]!r} raised {type(e).__name__}: {e}",
+                             {"op": "explode", "text": s, "width": w})
+            for name, fn in (("scale_mtext_inline_commands", lambda: T.scale_mtext_inline_commands(s, 2.0)),
+                             ("has_inline_formatting_codes", lambda: T.has_inline_formatting_codes(s)),
+                             ("text_wrap", lambda: (T.text_wrap(s, 5.0, lambda x: float(len(x))), T.text_wrap(s, None, lambda x: float(len(x))))),
+                             ("escape/safe_string", lambda: (T.escape_dxf_line_endings(s), T.safe_string(s, 7)))):
+                try:
+                    fn()
+                except Exception as e:  # noqa
+                    ctx.fail(f"total/{name}/{type(e).__name__}/{s[:40]!r}", f"{name}({s[:80]!r}) raised {type(e).__name__}: {e}",
+                             {"op": "total", "fn": name, "text": s})
         # split / join
         for size in (2, 3, 7, 250):
             chunks = T.split_mtext_string(s, size)
@@ -266,75 +596,420 @@ def oracle(ctx):
             if second != expect:
                 ctx.fail(f"impure/{name}/{s[:30]!r}", f"{name}({s[:60]!r}, split=True) returns {second!r} after the caller edited the earlier result {expect!r}",
                          {"op": "purity", "fn": name, "text": s})
-    # fast == slow on the sub-grammar
-    for s in subgrammar_docs(ctx):
+    # fast == slow: (a) on the sub-grammar of the property statement, (b) on EVERY generated string that the
+    # model's recogniser `agreeClass` accepts (theorem fast_eq_slow instantiated on the real code)
+    subs = list(dict.fromkeys(subgrammar_docs(ctx)))
+    alls = list(dict.fromkeys(s for _, s in strings(ctx)))
+    cls = ctx.driver("C20", [f"agree|{cps(s)}" for s in subs + alls], build=DRIVER_DEPS)
+    in_class = dict(zip(subs + alls, cls))
+    # list form: model paragraphs `splitNone (slowItems ..)` and the side condition of `fast_eq_slow_lines`
+    lined = [s for i, s in enumerate(alls) if ctx.quick or len(s) != 5 or i % 7 == 0]  # thorough: 1/7 of the length-5 layer
+    lns = ctx.driver("C20", [f"lines|{cps(s)}" for s in lined], build=DRIVER_DEPS)
+    no_lf_char = {}
+    for s, out in zip(lined, lns):
+        paras, bit = out.rsplit("|", 1)
+        no_lf_char[s] = bit == "1"
+        ctx.count("X6 paragraph list", s, any(c in CONTROL for c in s))
+        try:
+            impl_l = ";".join(cps(l) for l in T.plain_mtext(s, split=True))
+        except Exception:  # noqa
+            continue
+        if impl_l != paras:
+            ctx.disagree("X6 paragraph list", f"lines|{cps(s)}", impl_l, paras)
+    ctx.cov["disagreements_checked"] += len(lined)
+    for s in subs:
         ctx.count("O2 fast==slow", s, True)
+        if in_class[s] != "1":
+            ctx.disagree("X2 class covers sub-grammar", f"agree|{cps(s)}", "1", in_class[s])
         a, b = T.fast_plain_mtext(s), T.plain_mtext(s)
-        if a != b:
-            # plain_mtext drops exactly one trailing (empty) paragraph: classified separately (finding F16)
-            kind = "trailing-paragraph-break" if a == b + "\n" and s.rstrip("{}").endswith("\\P") or (a == b + "\n" and a.endswith("\n")) else "other"
-            ctx.fail(f"fastslow/{kind}/{s[:40]!r}", f"fast_plain_mtext({s!r})={a!r} plain_mtext={b!r}", {"op": "fastslow", "text": s})
+        a2, b2 = T.fast_plain_mtext(s, split=True), T.plain_mtext(s, split=True)
+        if a != b or a2 != b2:
+            kind = "trailing-paragraph-break" if a == b + "\n" else ("split-list" if a == b else "other")
+            ctx.fail(f"fastslow/{kind}/{s[:40]!r}", f"fast_plain_mtext({s!r})={a!r} plain_mtext={b!r}; split=True: {a2!r} / {b2!r}",
+                     {"op": "fastslow", "text": s})
+    for s in alls:
+        try:
+            a, b = T.fast_plain_mtext(s), T.plain_mtext(s)
+        except Exception:  # noqa (totality is checked above)
+            continue
+        if in_class[s] == "1":
+            ctx.count("O2b fast==slow in class", s, any(c in CONTROL for c in s))
+            ctx.hist("O2b fast==slow in class", "in class")
+            if no_lf_char.get(s):
+                ctx.hist("O2b fast==slow in class", "in class, no LF word character: list forms compared")
+                a2, b2 = T.fast_plain_mtext(s, split=True), T.plain_mtext(s, split=True)
+                if a2 != b2:
+                    ctx.fail(f"fastslow/in-class-lines/{s[:40]!r}", f"content accepted by agreeClass without a LF word character: "
+                             f"fast_plain_mtext({s[:80]!r}, split=True)={a2[:8]!r} plain_mtext={b2[:8]!r}", {"op": "fastslow", "text": s})
+            if a != b:
+                ctx.fail(f"fastslow/in-class/{s[:40]!r}", f"content accepted by agreeClass: fast_plain_mtext({s[:80]!r})={a[:80]!r} plain_mtext={b[:80]!r}",
+                         {"op": "fastslow", "text": s})
+        else:
+            ctx.hist("O2b fast==slow in class", "outside: differ" if a != b else "outside: equal")
+    # differ_lines_only: joined forms equal, list forms differ
+    ctx.count("O2c differ replays", "\\^Jx", True)
+    got = (T.plain_mtext("\\^Jx", split=True), T.fast_plain_mtext("\\^Jx", split=True), T.plain_mtext("\\^Jx") == T.fast_plain_mtext("\\^Jx"))
+    if got != (["\\\nx"], ["\\", "x"], True):
+        ctx.disagree("X4 differ replays", "\\^Jx", repr(got), "(['\\\\\\nx'], ['\\\\', 'x'], True)")
+    for s, slow, fast in DIFFER:
+        ctx.count("O2c differ replays", s, True)
+        if (T.plain_mtext(s), T.fast_plain_mtext(s)) != (slow, fast):
+            ctx.disagree("X4 differ replays", s, f"{T.plain_mtext(s)!r} / {T.fast_plain_mtext(s)!r}", f"{slow!r} / {fast!r}")
     editor_oracle(ctx)
+    file_roundtrip_oracle(ctx)
 
 
-WORDS = ["alpha", "B2", "é", "x", "12"]
+def file_roundtrip_oracle(ctx):
+    """O5: MTEXT content through a real DXF file: export_mtext_content (chunks of 250, group codes 3/1) -> load ->
+    the content with escaped line endings (theorem export_load_roundtrip on the real writer and loader)"""
+    import io
+    import ezdxf
+    from ezdxf.tools import text as T
+
+    rng = ctx.rng("file")
+    for ver in ("R2000", "R2010", "R2018")[: ctx.n(2, 3)]:
+        doc = ezdxf.new(ver)
+        msp = doc.modelspace()
+        items = []
+        for _ in range(ctx.n(40, 200)):
+            n = rng.choice([0, 1, 249, 250, 251, 499, 500, 501, 752, 1300])
+            s = "".join(rng.choice("^^ab\né\\P{};% ") for _ in range(n))
+            items.append((msp.add_mtext(s).dxf.handle, s))
+        stream = io.StringIO()
+        doc.write(stream)
+        doc2 = ezdxf.read(io.StringIO(stream.getvalue()))
+        for h, s in items:
+            ctx.count("O5 file round trip", (ver, s), "^" in s)
+            got = doc2.entitydb[h].text
+            if got != T.escape_dxf_line_endings(s):
+                ctx.fail(f"file/{ver}/{len(s)}/{s[:30]!r}", f"MTEXT content of length {len(s)} written to a {ver} file is loaded as a different string "
+                         f"({got[:40]!r}… instead of {T.escape_dxf_line_endings(s)[:40]!r}…)", {"op": "file", "text": s, "version": ver})
+
+
+WORDS = ["alpha", "B2", "é", "x", "12", "a b", "1;2", "x,y|z", "Ω≈ç", "", " ", "50 # / ~ ; : ."]  # no TAB, NBSP (U+00A0), FF: used as markers
+ARGWORDS = ["Arial", "Times New Roman", "é|x", "a b", "1", "", "txt,2"]
+FLOATS = [2.5, 1.5, 0.8, 1.2, 0.0, 1.0, 3, 15, 0.1, 1 / 3, 2.0004, 2.0005, 1e-5, 123456.789, 1e16, 1.5e22, -1.5, -0.0, 1e-300,
+          7.0e15, 0.125, 1e15 + 0.5, 100, 0.001, 0.0004]
+
+
+def editor_cases(ctx):
+    """yield (desc, protocol line, editor text, expected words) for generated MTextEditor call sequences;
+    the protocol line describes the calls to the Lean model (`EdOp`), floats travel as their Python text"""
+    from ezdxf.tools import text as T
+    from ezdxf.tools.text import MTextEditor, ParagraphProperties
+    from ezdxf.lldxf import const
+    from ezdxf.colors import rgb2int
+
+    rng = ctx.rng("editor")
+    w = lambda: rng.choice(WORDS)
+    aw = lambda: rng.choice(ARGWORDS)
+    fl = lambda: rng.choice(FLOATS) if rng.random() < 0.7 else round(rng.uniform(-50, 50) * 10 ** rng.randint(-6, 9), rng.randint(0, 12))
+
+    def para():
+        al = rng.choice(list(T.MTextParagraphAlignment))
+        tabs = tuple(rng.choice([fl(), "c%g" % abs(fl()), "r%g" % abs(fl()), str(abs(rng.randint(0, 40)))]) for _ in range(rng.randint(0, 4)))
+        return ParagraphProperties(indent=rng.choice([0, fl()]), left=rng.choice([0, fl()]), right=rng.choice([0, fl()]),
+                                   align=al, tab_stops=tabs)
+
+    def one():
+        k = rng.randrange(25)
+        if k == 21:
+            return ("tab",), lambda e: e.append(MTextEditor.TAB), "tab", "\t"
+        if k == 22:
+            return ("nbsp",), lambda e: e.append(MTextEditor.NBSP), "nbsp", "\xa0"
+        if k == 23:
+            return ("newcol",), lambda e: e.append(MTextEditor.NEW_COLUMN), "newcol", "\f"
+        if k == 24:
+            n = rng.randint(0, 3)
+            bl = [rng.choice(["-", "1.", "•", "a)", ""]) for _ in range(n)]
+            it = [w() for _ in range(n)]
+            ind = rng.choice([0, 2, 4, 1.5, 0.25, 1 / 3, 1e6, fl()])
+            ps = ParagraphProperties(indent=-ind * 0.75, left=ind, tab_stops=(ind,)).tostring()
+            assert ps.startswith("\\px") and ps.endswith(";")
+            rows = ",".join(f"{cps(b)}={cps(c)}" for b, c in zip(bl, it))
+            return (("bullet_list", ind, tuple(bl), tuple(it)), lambda e: e.bullet_list(ind, bl, it),
+                    f"bullets:{cps(ps[3:-1])}:{rows}", "".join(b + "\t" + c + "\n" for b, c in zip(bl, it)))
+        if k == 0:
+            a = w(); return ("append", a), lambda e: e.append(a), f"append:{cps(a)}", a
+        if k == 1:
+            n, bo, it = aw(), rng.random() < 0.5, rng.random() < 0.5
+            return ("font", n, bo, it), lambda e: e.font(n, bo, it), f"font:{cps(n)}:{cps(str(int(bo)))}:{cps(str(int(it)))}", ""
+        if k in (2, 3, 4, 5):
+            name = ["scale_height", "height", "width_factor", "char_tracking_factor"][k - 2]
+            x = fl()
+            return (name, x), lambda e: getattr(e, name)(x), f"{name}:{cps(str(round(x, 3)))}", ""
+        if k == 6:
+            x = rng.choice([15, -15, 0, 30.7, -0.5, 1e6, fl()])
+            return ("oblique", x), lambda e: e.oblique(x), f"oblique:{cps(str(int(x)))}", ""
+        if k == 7:
+            n = rng.choice(list(const.MTEXT_COLOR_INDEX))
+            return ("color", n), lambda e: e.color(n), f"aci:{cps(str(const.MTEXT_COLOR_INDEX[n.lower()]))}", ""
+        if k == 8:
+            n = rng.choice([0, 1, 7, 255, 256, rng.randint(0, 256)])
+            return ("aci", n), lambda e: e.aci(n), f"aci:{cps(str(n))}", ""
+        if k == 9:
+            c = (rng.randint(0, 255), rng.randint(0, 255), rng.randint(0, 255))
+            r, g, b_ = c
+            return ("rgb", c), lambda e: e.rgb(c), f"rgb:{cps(str(rgb2int((b_, g, r))))}", ""
+        if k == 10:
+            u, l, ty = rng.choice(ARGWORDS + ["x"]), rng.choice(ARGWORDS + ["y"]), rng.choice("^/#")
+            u, l = u.replace(";", ""), l.replace(";", "")
+            return ("stack", u, l, ty), lambda e: e.stack(u, l, ty), f"stack:{cps(u)}:{cps(l)}:{cps(ty)}", u + ty + l
+        if k in (11, 12, 13, 14):
+            name = ["group", "underline", "overline", "strike_through"][k - 11]
+            a = w()
+            return (name, a), lambda e: getattr(e, name)(a), f"{name}:{cps(a)}", a
+        if k == 15:
+            pp = para()
+            s = pp.tostring()
+            if s:
+                assert s.startswith("\\px") and s.endswith(";")
+                return ("paragraph", tuple(pp)), lambda e: e.paragraph(pp), f"paragraph:{cps(s[3:-1])}", ""
+            return ("paragraph", tuple(pp)), lambda e: e.paragraph(pp), "paragraph_none", ""
+        if k == 16:
+            c = rng.choice([MTextEditor.NEW_PARAGRAPH, MTextEditor.NEW_LINE])
+            return ("newpar",), lambda e: e.append(c), "newpar", "\n"
+        if k == 17:
+            c = rng.choice([MTextEditor.ALIGN_BOTTOM, MTextEditor.ALIGN_MIDDLE, MTextEditor.ALIGN_TOP])
+            return ("align", c), lambda e: e.append(c), f"align:{cps(c[2])}", ""
+        if k == 18:
+            c = rng.choice([MTextEditor.UNDERLINE_START, MTextEditor.UNDERLINE_STOP, MTextEditor.OVERSTRIKE_START,
+                            MTextEditor.OVERSTRIKE_STOP, MTextEditor.STRIKE_START, MTextEditor.STRIKE_STOP])
+            return ("const", c), lambda e: e.append(c), f"const:{cps(c[1])}", ""
+        if k == 19:
+            return ("group_start",), lambda e: e.append(MTextEditor.GROUP_START), "group_start", ""
+        return ("group_end",), lambda e: e.append(MTextEditor.GROUP_END), "group_end", ""
+
+    lengths = [0] + [1] * ctx.n(400, 3000) + [2] * ctx.n(400, 3000) + [rng.randint(3, 14) for _ in range(ctx.n(1200, 12000))]
+    for n in lengths:
+        e = MTextEditor()
+        desc, proto, expect = [], [], ""
+        for _ in range(n):
+            d, call, pr, ex = one()
+            call(e)
+            desc.append(d); proto.append(pr); expect += ex
+        yield tuple(desc), "xeditor|" + "/".join(proto), str(e), expect
+
+
+def expect_slow(expect: str) -> str:
+    return expect.replace("\t", "    ").replace("\xa0", " ").replace("\f", "\n")
+
+
+def expect_fast(expect: str):
+    """None when NBSP / NEW_COLUMN are used (the fast decoder differs there: differ_nbsp, differ_new_column)"""
+    return None if ("\xa0" in expect or "\f" in expect) else expect
+
+
+def editor_correspond(ctx):
+    """X3: the text the real MTextEditor writes == `editorText` of the model, the words the harness expects ==
+    `editorWords`, and every generated argument is in range for the theorem (`EdOp.wf`, float-text assumption)"""
+    cases = []
+    for desc, req, text, expect in editor_cases(ctx):
+        for d in desc:
+            ctx.hist("X3 editor", d[0])
+        ef = expect_fast(expect)
+        cases.append((req, f"{cps(text)}|{cps(expect_slow(expect))}|{'-' if ef is None else cps(ef)}|1", len(desc) > 0))
+        # token level: what the real parser (yield_property_commands=True) reads from the written text == `xEditorTokens`
+        toks = impl_tokens(text, True)
+        assert toks.startswith("ok ")
+        cases.append((req.replace("xeditor|", "xtokens|", 1), toks[3:] + "|1", len(desc) > 0))
+    ctx.correspond("X3 editor", "C20", cases, build=DRIVER_DEPS)
+
+
+def para_correspond(ctx):
+    r"""X5: ParagraphProperties.tostring() == model `toArgs` on the value texts; `ctx.paragraph` after parsing
+    `\p<args>;` == model `paraParse` (numbers compared as float(text), i.e. exactly what the parser computes)"""
+    from ezdxf.tools import text as T
+    from ezdxf.tools.text import ParagraphProperties, MTextParser
+
+    rng = ctx.rng("para")
+    g = lambda x: f"{x:g}"
+    al_char = {T.MTextParagraphAlignment.DEFAULT: None, T.MTextParagraphAlignment.LEFT: "l", T.MTextParagraphAlignment.RIGHT: "r",
+               T.MTextParagraphAlignment.CENTER: "c", T.MTextParagraphAlignment.JUSTIFIED: "j", T.MTextParagraphAlignment.DISTRIBUTED: "d"}
+    fl = lambda: rng.choice(FLOATS) if rng.random() < 0.7 else round(rng.uniform(-50, 50) * 10 ** rng.randint(-6, 9), rng.randint(0, 12))
+    opt = lambda x: "-" if x is None else cps(x)
+    cases, args_pool = [], []
+    for _ in range(ctx.n(1500, 15000)):
+        ind, lft, rgt = (rng.choice([0, 0, fl()]) for _ in range(3))
+        al = rng.choice(list(al_char))
+        tabs, mtabs = [], []
+        for _ in range(rng.choice([0, 0, 1, 2, 3, 5])):
+            k, x = rng.randrange(4), abs(fl())
+            if k == 0:
+                tabs.append(x); mtabs.append("L=" + cps(g(x)))
+            elif k == 1:
+                tabs.append(g(x)); mtabs.append("L=" + cps(g(x)))  # a number given as str
+            else:
+                tabs.append("cr"[k - 2] + g(x)); mtabs.append("CR"[k - 2] + "=" + cps(g(x)))
+        pp = ParagraphProperties(ind, lft, rgt, al, tuple(tabs))
+        s = pp.tostring()
+        impl = "-" if s == "" else cps(s[3:-1])
+        if s:
+            assert s.startswith("\\px") and s.endswith(";")
+            args_pool.append("x" + s[3:-1])
+        req = "ptostr|%s|%s|%s|%s|%s" % (opt(g(ind) if ind else None), opt(g(lft) if lft else None), opt(g(rgt) if rgt else None),
+                                          opt(al_char[al]), "/".join(mtabs))
+        cases.append((req, impl, s != ""))
+    ctx.correspond("X5 paragraph tostring", "C20", cases, build=DRIVER_DEPS)
+    # parser values
+    for body in ["i1,l2,r3,qc,t1,c2,r3", "i1:.2", "xqj", "t*,z", "i-1.5e3,l+2.,r.5", "q", "t", "tc", "tr1e", "i1e+", "i,l,r", "qx,i2", "t1,,2",
+                 "ql,qr,qq", "i1i2", "tr,c", "t-1,+2", "i*,l*,r*,q*,t", "xi2,l0", "q,", "tcr1"]:
+        args_pool.append(body)
+    alpha = "ilrqtcxjd,0159.-+e* "
+    for n in range(0, ctx.n(3, 4)):
+        for tpl in itertools.product("ilrqtc,1.-x", repeat=n):
+            args_pool.append("".join(tpl))
+    for _ in range(ctx.n(3000, 40000)):
+        args_pool.append("".join(rng.choice(alpha) for _ in range(rng.randint(0, 16))))
+    args_pool = list(dict.fromkeys(args_pool))
+    outs = ctx.driver("C20", [f"pparse|{cps(a)}" for a in args_pool], build=DRIVER_DEPS)
+    un = lambda f: "".join(chr(int(x)) for x in f.split()) if f else ""
+    for a, out in zip(args_pool, outs):
+        ctx.count("X5 paragraph values", a, any(c in a for c in "ilrqt"))
+        toks = list(MTextParser("\\p" + a + ";x"))
+        par = toks[0].ctx.paragraph
+        impl = (float(par.indent), float(par.left), float(par.right), al_char[par.align],
+                tuple(x if isinstance(x, str) else float(x) for x in par.tab_stops))
+        i, l, r, al, ts = out.split(";")
+        num = lambda f: 0.0 if f == "-" else float(un(f))
+        mtabs = []
+        for tab in (ts.split("/") if ts else []):
+            kind, f = tab.split("=")
+            mtabs.append(float(un(f)) if kind == "L" else kind.lower() + un(f))
+        model = (num(i), num(l), num(r), None if al == "-" else chr(int(al)), tuple(mtabs))
+        if impl != model:
+            ctx.disagree("X5 paragraph values", f"pparse|{cps(a)}", repr(impl), repr(model))
+    ctx.cov["disagreements_checked"] += len(args_pool)
+
+
+def context_correspond(ctx):
+    r"""X7: the MTextContext attached to every token of MTextParser(s, yield_property_commands=True) == model `parseC`:
+    stroke flags, continue_stroke, aci, rgb, line alignment, font face (family, italic, bold), cap height / width factor /
+    char tracking (the model's symbolic value evaluated with CPython floats in the same order), oblique, paragraph properties"""
+    from ezdxf.tools import text as T
+    from ezdxf.tools.text import MTextParser, TokenType as TT
+    from ezdxf.fonts import fonts
+
+    names = {TT.SPACE: "SP", TT.NBSP: "NB", TT.TABULATOR: "TAB", TT.NEW_PARAGRAPH: "NP", TT.NEW_COLUMN: "NC", TT.WRAP_AT_DIMLINE: "WD"}
+    al_char = {T.MTextParagraphAlignment.DEFAULT: None, T.MTextParagraphAlignment.LEFT: "l", T.MTextParagraphAlignment.RIGHT: "r",
+               T.MTextParagraphAlignment.CENTER: "c", T.MTextParagraphAlignment.JUSTIFIED: "j", T.MTextParagraphAlignment.DISTRIBUTED: "d"}
+    default_font = fonts.FontFace()
+    un = lambda f: "".join(chr(int(x)) for x in f.split()) if f else ""
+
+    def tok_str(t):
+        if t.type == TT.PROPERTIES_CHANGED:
+            return "P:" + cps(t.data)
+        if t.type == TT.WORD:
+            return "W:" + cps(t.data)
+        if t.type == TT.STACK:
+            u, l, d = t.data
+            return "K:" + cps(u) + "/" + cps(l) + "/" + cps(d)
+        return names[t.type]
+
+    def real_ctx(c):
+        p = c.paragraph
+        rgb = None if c.rgb is None else (c.rgb.b << 16) | (c.rgb.g << 8) | c.rgb.r
+        return (c.underline, c.overline, c.strike_through, bool(c.continue_stroke), c.aci, rgb, int(c.align),
+                (c.font_face.family, c.font_face.is_italic, c.font_face.is_bold), float(c.cap_height), float(c.width_factor),
+                float(c.char_tracking_factor), float(c.oblique),
+                (float(p.indent), float(p.left), float(p.right), al_char[p.align], tuple(x if isinstance(x, str) else float(x) for x in p.tab_stops)))
+
+    def sval(s):
+        v = 1.0
+        for op in (s.split("+") if s else []):
+            kind, f = op[0], un(op[2:])
+            v = abs(float(f)) if kind == "A" else v * abs(float(f))
+        return v
+
+    def model_ctx(s):
+        # the paragraph part (last field) contains "," inside cps? no: cps uses blanks, showPara uses ";" and "/"
+        u, o, k, c, aci, rgb, align, font, cap, wf, ct, obl, para = s.split(",")
+        if font == "-":
+            ff = (default_font.family, default_font.is_italic, default_font.is_bold)
+        else:
+            n, i, b = font.split("/")
+            ff = (un(n), i == "1", b == "1")
+        pi, pl, pr, pa, pt = para.split(";")
+        num = lambda f: 0.0 if f == "-" else float(un(f))
+        tabs = []
+        for tab in (pt.split("/") if pt else []):
+            kind, f = tab.split("=")
+            tabs.append(float(un(f)) if kind == "L" else kind.lower() + un(f))
+        return (u == "1", o == "1", k == "1", c == "1", int(aci), None if rgb == "-" else int(rgb), int(align), ff, sval(cap), sval(wf), sval(ct),
+                0.0 if obl == "-" else float(un(obl)), (num(pi), num(pl), num(pr), None if pa == "-" else chr(int(pa)), tuple(tabs)))
+
+    strs = []
+    n = 0
+    for kind, s in strings(ctx):
+        n += 1
+        if kind == "digits" or (kind == "exh" and (len(s) > 4 or n % 3)):
+            continue
+        strs.append(s)
+    rng = ctx.rng("ctx")
+    atoms = SUB_ATOMS + ["\\C300;", "\\c16711935;", "\\c99999999999;", "\\A2;", "\\A7;", "\\fTimes New Roman|b1|i1|c0|p18;", "\\f|b1;", "\\Fa|i1b1;",
+                         "\\H0.5x;", "\\H3;", "\\H-2x;", "\\W2x;", "\\T0.5;", "\\Q-30;", "\\pi-1.5,l2,qj,t4,c8,r9;", "\\pt;", "\\L", "\\l", "\\O", "\\o", "\\K", "\\k",
+                         "{", "}", "}", "a b", "\\~", "^I", "\\N"]
+    for _ in range(ctx.n(3000, 30000)):
+        strs.append("".join(rng.choice(atoms) for _ in range(rng.randint(1, 14))))
+    strs = list(dict.fromkeys(strs))
+    reqs = [f"ctx|{cps(s)}" for s in strs]
+    # editor output: the expected tokens with contexts `xEditorCTokens` (theorem editor_contexts_roundtrip) vs the real parser
+    for desc, req, text, expect in editor_cases(ctx):
+        strs.append(text)
+        reqs.append(req.replace("xeditor|", "xctokens|", 1))
+    outs = ctx.driver("C20", reqs, build=DRIVER_DEPS)
+    for s, out in zip(strs, outs):
+        ctx.count("X7 token contexts", s, "\\" in s or "{" in s)
+        try:
+            impl = [(tok_str(t), real_ctx(t.ctx)) for t in MTextParser(s, yield_property_commands=True)]
+        except Exception as e:  # noqa
+            impl = "err " + type(e).__name__
+        if out.startswith("err"):
+            model = out
+        else:
+            body = out[3:]
+            model = []
+            for piece in (body.split("#") if body else []):
+                tk, cx = piece.split("@", 1)
+                model.append((tk, model_ctx(cx)))
+        if impl != model:
+            first = next((i for i, (a, b) in enumerate(zip(impl, model)) if a != b), min(len(impl), len(model))) if isinstance(impl, list) and isinstance(model, list) else 0
+            ctx.disagree("X7 token contexts", f"ctx|{cps(s)}", repr(impl[first:first + 1] if isinstance(impl, list) else impl)[:300],
+                         repr(model[first:first + 1] if isinstance(model, list) else model)[:300])
+    ctx.cov["disagreements_checked"] += len(strs)
 
 
 def editor_oracle(ctx):
     from ezdxf.tools import text as T
-    from ezdxf.tools.text import MTextEditor, ParagraphProperties
 
-    rng = ctx.rng("editor")
-
-    def ops():
-        w = lambda: rng.choice(WORDS)
-        return [
-            ("append", lambda e, a: e.append(a), w), ("font", lambda e, a: e.font("Arial", bold=True), lambda: ""),
-            ("height", lambda e, a: e.height(2.5), lambda: ""), ("scale_height", lambda e, a: e.scale_height(1.5), lambda: ""),
-            ("width_factor", lambda e, a: e.width_factor(0.8), lambda: ""), ("char_tracking_factor", lambda e, a: e.char_tracking_factor(1.2), lambda: ""),
-            ("oblique", lambda e, a: e.oblique(15), lambda: ""), ("color", lambda e, a: e.color("red"), lambda: ""),
-            ("aci", lambda e, a: e.aci(3), lambda: ""), ("rgb", lambda e, a: e.rgb((1, 2, 3)), lambda: ""),
-            ("group", lambda e, a: e.group(a), w), ("underline", lambda e, a: e.underline(a), w),
-            ("overline", lambda e, a: e.overline(a), w), ("strike_through", lambda e, a: e.strike_through(a), w),
-            ("paragraph", lambda e, a: e.paragraph(ParagraphProperties(indent=1, left=2, right=3, align=T.MTextParagraphAlignment.CENTER, tab_stops=(1, "c2", "r3"))), lambda: ""),
-            ("newpar", lambda e, a: e.append(MTextEditor.NEW_PARAGRAPH), lambda: "\n"),
-            ("stack", lambda e, a: e.stack(a, "z", "/"), lambda: w()),
-        ]
-
-    table = ops()
-    count = 0
-    seqs = [t for n in range(1, ctx.n(3, 4)) for t in itertools.product(range(len(table)), repeat=n)]
-    for _ in range(ctx.n(500, 5000)):
-        seqs.append(tuple(rng.randrange(len(table)) for _ in range(rng.randint(4, 12))))
-    for seq in seqs:
-        e = MTextEditor()
-        expect = ""
-        desc = []
-        for i in seq:
-            name, fn, arg = table[i]
-            a = arg()
-            fn(e, a)
-            desc.append((name, a))
-            if name == "stack":
-                expect += a + "/" + "z"
-            elif name == "newpar":
-                expect += "\n"
-            else:
-                expect += a
-        s = str(e)
-        count += 1
-        ctx.count("O3 editor", tuple(desc), True)
+    for desc, req, s, expect in editor_cases(ctx):
+        ctx.count("O3 editor", desc, len(desc) > 0)
         try:
             got = T.plain_mtext(s)
             gotf = T.fast_plain_mtext(s)
+            gotl = T.plain_mtext(s, split=True)
         except Exception as ex:  # noqa
-            ctx.fail(f"editor/raise/{desc[:4]}", f"MTextEditor {desc} -> {s!r} raised {type(ex).__name__}", {"op": "editor", "seq": desc})
+            ctx.fail(f"editor/raise/{desc[:4]}", f"MTextEditor {desc} -> {s!r} raised {type(ex).__name__}", {"op": "editor", "text": s, "expect": expect})
             continue
-        exp_plain = expect[:-1] if False else expect
-        # plain_mtext drops an empty trailing paragraph
-        norm = lambda x: x.rstrip("\n")
-        if norm(got) != norm(exp_plain):
-            ctx.fail(f"editor/words/{desc[:4]}", f"MTextEditor {desc} -> {s!r} decodes to {got!r}, expected {exp_plain!r}", {"op": "editor", "seq": desc})
+        es, ef = expect_slow(expect), expect_fast(expect)
+        if got != es or (ef is not None and gotf != ef) or gotl != es.split("\n"):
+            ctx.fail(f"editor/words/{desc[:4]}", f"MTextEditor {desc} -> {s!r} decodes to {got!r} / fast {gotf!r}, expected {expect!r}",
+                     {"op": "editor", "text": s, "expect": expect})
+    # bullet lists (TAB and paragraph properties; the fast decoder keeps the TAB character, the parser writes 4 blanks)
+    from ezdxf.tools.text import MTextEditor
+    rng = ctx.rng("bullets")
+    for _ in range(ctx.n(200, 2000)):
+        k = rng.randint(0, 4)
+        bullets = [rng.choice(["-", "1.", "•", "a)"]) for _ in range(k)]
+        items = [rng.choice(WORDS) for _ in range(k)]
+        indent = rng.choice(FLOATS[:12])
+        s = str(MTextEditor().bullet_list(indent, bullets, items))
+        expect = "".join(b + "\t" + c + "\n" for b, c in zip(bullets, items))
+        ctx.count("O3 editor", ("bullet_list", indent, tuple(bullets), tuple(items)), k > 0)
+        got, gotf = T.plain_mtext(s), T.fast_plain_mtext(s)
+        if gotf != expect or got != expect.replace("\t", "    "):
+            ctx.fail(f"editor/bullets/{indent}/{bullets}", f"bullet_list({indent}, {bullets}, {items}) -> {s!r} decodes to {got!r} / fast {gotf!r}",
+                     {"op": "editor", "text": s, "expect": expect})
 
 
 def replay(ctx, rep):
@@ -349,8 +1024,37 @@ def replay(ctx, rep):
             elif r["op"] == "split":
                 c = T.split_mtext_string(r["text"], r["size"])
                 assert "".join(c) == r["text"] and all(0 < len(x) <= r["size"] for x in c)
+            elif r["op"] == "splithang":
+                assert split_small_sizes([(r["text"], r["size"])])[0] == "err ValueError"
             elif r["op"] == "fastslow":
                 assert T.fast_plain_mtext(r["text"]) == T.plain_mtext(r["text"])
+                assert T.fast_plain_mtext(r["text"], split=True) == T.plain_mtext(r["text"], split=True)
+            elif r["op"] == "file":
+                import io, ezdxf
+                doc = ezdxf.new(r["version"]); h = doc.modelspace().add_mtext(r["text"]).dxf.handle
+                stream = io.StringIO(); doc.write(stream)
+                assert ezdxf.read(io.StringIO(stream.getvalue())).entitydb[h].text == T.escape_dxf_line_endings(r["text"])
+            elif r["op"] == "explode":
+                import ezdxf
+                from ezdxf.addons import MTextExplode
+                msp = ezdxf.new().modelspace()
+                with MTextExplode(msp) as xpl:
+                    xpl.explode(msp.add_mtext(r["text"], dxfattribs={"width": r["width"]}))
+            elif r["op"] == "size":
+                import ezdxf
+                from ezdxf.tools import text_size as TS
+                m = ezdxf.new().modelspace().add_mtext(r["text"], dxfattribs={"width": r["width"], "char_height": r["char_height"]})
+                TS.mtext_size(m); T.estimate_mtext_extents(m)
+            elif r["op"] == "size1":
+                import ezdxf
+                from ezdxf.tools import text_size as TS
+                TS.text_size(ezdxf.new().modelspace().add_text(r["text"]))
+            elif r["op"] == "editor":
+                assert T.plain_mtext(r["text"]) == expect_slow(r["expect"])
+            elif r["op"] == "purity":
+                fn = getattr(T, r["fn"])
+                first = fn(r["text"], split=True); keep = list(first); first.append("x")
+                assert fn(r["text"], split=True) == keep
         except Exception as e:  # noqa
             bad.append(f"{f['key']}: {type(e).__name__}")
     return (not bad, "; ".join(bad) or "all recorded failing inputs pass now")
